@@ -167,6 +167,8 @@ fn unit_variant<T>(v: &Val, enum_name: &str, table: fn(&str) -> Option<T>) -> Re
 pub enum UnknownName {
     NoSuchVariant(String),
     Form(String),
+    /// an item every module with this content must have is absent (a verdict about the module, not about the reader)
+    Missing(String),
 }
 impl From<String> for UnknownName {
     fn from(s: String) -> Self {
@@ -246,6 +248,7 @@ impl std::fmt::Display for UnknownName {
         match self {
             UnknownName::NoSuchVariant(s) => write!(f, "names something that does not exist in wgpu 24: {s}"),
             UnknownName::Form(s) => write!(f, "unreadable form: {s}"),
+            UnknownName::Missing(s) => write!(f, "missing item: {s}"),
         }
     }
 }
